@@ -1,4 +1,5 @@
 import Ufw.Props.C01
+import Ufw.Tie.RegTable
 #print axioms Ufw.Props.C01.set_success_inv
 #print axioms Ufw.Props.C01.set_get
 #print axioms Ufw.Props.C01.checked_set_get
@@ -8,3 +9,5 @@ import Ufw.Props.C01
 #print axioms Ufw.Props.C01.set_refuses_invalid
 #print axioms Ufw.Props.C01.set_refuses_bad_float
 #print axioms Ufw.Props.C01.unsafe_eq_checked
+#print axioms Ufw.Tie.RegTable.const_rds_size
+#print axioms Ufw.Tie.RegTable.const_enums
